@@ -4,6 +4,7 @@ import (
 	"bytes"
 	"fmt"
 	"reflect"
+	"strings"
 
 	"github.com/brocaar/lorawan"
 	"verifharness/internal/cases"
@@ -139,6 +140,44 @@ func payloadEnc(s *cases.Set, p lorawan.Payload, kind string) {
 		Replay: map[string]interface{}{"api": kind + " MarshalBinary", "value": t}})
 }
 
+// cflistDec: CFList.UnmarshalBinary of 16 octets (alone and inside a join-accept payload), then MarshalBinary of the
+// decoded value. Octets 12..14 of a channel-mask CFList are RFU.
+func cflistDec(s *cases.Set, b []byte, kind string) {
+	o, re := cq.Err, cq.Err
+	func() {
+		defer func() {
+			if r := recover(); r != nil {
+				o = cq.Panic
+			}
+		}()
+		var l lorawan.CFList
+		in := append([]byte{}, b...)
+		if err := l.UnmarshalBinary(in); err != nil {
+			return
+		}
+		t := framefmt.CFList(&l)
+		o = cq.Ok(strings.TrimSuffix(strings.TrimPrefix(t, "(Some "), ")"))
+		func() {
+			defer func() {
+				if r := recover(); r != nil {
+					re = cq.Panic
+				}
+			}()
+			if rb, err := l.MarshalBinary(); err == nil {
+				re = cq.Ok(cq.Bytes(rb))
+			}
+		}()
+		// the same octets behind a join-accept header decode to the same CFList
+		ja := append(make([]byte, 12), b...)
+		var p lorawan.JoinAcceptPayload
+		if err := p.UnmarshalBinary(false, ja); err != nil || framefmt.CFList(p.CFList) != t {
+			decFail(s, "CFList decoder", t, b, "JoinAcceptPayload.UnmarshalBinary decodes the same CFList octets to "+framefmt.CFList(p.CFList))
+		}
+	}()
+	s.Add(cases.Case{Term: fmt.Sprintf("CCFListDec %s %s %s", cq.Bytes(b), o, re), Key: fmt.Sprintf("cflist-dec:%x", b), Kind: kind, Nontrivial: true,
+		Replay: map[string]interface{}{"api": "CFList.UnmarshalBinary, then MarshalBinary of the decoded value", "bytes": fmt.Sprintf("%x", b)}})
+}
+
 // frameCases: MHDR, FCtrl, DLSettings (all 256 octets each), join / rejoin payloads, join-accept with both CFList kinds.
 func frameCases(s *cases.Set, r *cq.RNG, thorough bool) {
 	for v := 0; v < 256; v++ {
@@ -220,5 +259,44 @@ func frameCases(s *cases.Set, r *cq.RNG, thorough bool) {
 		ja := framefmt.JoinFrame(r, 1).MACPayload.(*lorawan.JoinAcceptPayload)
 		ja.CFList = framefmt.RandomCFList(r)
 		payloadEnc(s, ja, "join-accept-cflist")
+	}
+	// CFList octets as a receiver sees them: encoded lists with the RFU octets (12..14 of the channel-mask type) set,
+	// arbitrary octets of both types, an unknown type, wrong lengths
+	rfu := [][3]byte{{0, 0, 0}, {1, 0, 0}, {0, 1, 0}, {0, 0, 1}, {0xff, 0xff, 0xff}, {0x80, 0, 0}, {0, 0x80, 0}, {0xff, 0xff, 0}, {0, 0, 0xff}}
+	for i := 0; i < n; i++ {
+		if c := framefmt.RandomCFList(r); c != nil {
+			if b, err := c.MarshalBinary(); err == nil {
+				cflistDec(s, b, "cflist-dec-encoded")
+				if b[15] == 1 {
+					for _, x := range rfu[1:] {
+						m := append([]byte{}, b...)
+						copy(m[12:15], x[:])
+						cflistDec(s, m, "cflist-dec-rfu-set")
+					}
+					m := append([]byte{}, b...)
+					copy(m[12:15], r.Bytes(3))
+					cflistDec(s, m, "cflist-dec-rfu-set")
+				}
+			}
+		}
+		b := r.Bytes(16)
+		b[15] = byte(i % 2)
+		cflistDec(s, b, fmt.Sprintf("cflist-dec-random-type%d", b[15]))
+		if i%8 == 0 {
+			b = r.Bytes(16)
+			if b[15] < 2 {
+				b[15] += 2
+			}
+			cflistDec(s, b, "cflist-dec-unknown-type")
+			cflistDec(s, r.Bytes([]int{0, 1, 12, 15, 17, 28}[r.Intn(6)]), "cflist-dec-wrong-length")
+		}
+	}
+	for _, x := range rfu {
+		for _, fill := range []byte{0, 0xff} {
+			b := bytes.Repeat([]byte{fill}, 16)
+			copy(b[12:15], x[:])
+			b[15] = 1
+			cflistDec(s, b, "cflist-dec-rfu-set")
+		}
 	}
 }
